@@ -488,6 +488,10 @@ def rule_f(ctx, ix):
         from .. import cond as _c
         pc_cut = _c.path_condition(f.node, cuts[0], expand=False) or ('const', True)
         cands = [n_ for n_ in sorted(trues & falses) if n_ in _c.atoms(pc_cut)]
+        if len(cands) != 1:
+            # the flag may get its value from a helper (`view, flag = self._combine(...)`): the one local the cut is tested on
+            stored = {n_.id for n_ in ast.walk(f.node) if isinstance(n_, ast.Name) and isinstance(n_.ctx, ast.Store)}
+            cands = [n_ for n_ in sorted(stored - set(f.params)) if n_ in _c.atoms(pc_cut)]
         if len(cands) == 1:
             flag = cands[0]
         for st in walk_no_nested(f.node):
@@ -498,7 +502,20 @@ def rule_f(ctx, ix):
                 padvar = st.targets[0].id
     else:
         maskvar = 'mask'
-    B = common.nodes_where(cfg, lambda e: is_assign(e, flag, 'False'))
+    def may_clear(e):
+        # the flag is bound to anything but the constant True: `flag = False`, `view, flag = helper(...)`
+        if not isinstance(e, ast.Assign):
+            return False
+        for t in e.targets:
+            if unparse(t) == flag:
+                return not (isinstance(e.value, ast.Constant) and e.value.value is True)
+            if isinstance(t, (ast.Tuple, ast.List)) and any(unparse(x) == flag for x in t.elts):
+                if isinstance(e.value, (ast.Tuple, ast.List)) and len(e.value.elts) == len(t.elts):
+                    v = e.value.elts[[unparse(x) for x in t.elts].index(flag)]
+                    return not (isinstance(v, ast.Constant) and v.value is True)
+                return True
+        return False
+    B = common.nodes_where(cfg, may_clear)
     reset = set(common.nodes_where(cfg, lambda e: is_assign(e, sub, 'None')))
     pad = common.nodes_where(cfg, lambda e: isinstance(e, ast.Assign) and isinstance(e.targets[0], ast.Subscript)
                              and padvar in unparse(e.targets[0].slice) and isinstance(e.value, ast.Name))
